@@ -1009,11 +1009,15 @@ class Client():
                 location = path
             splits = urlsplit(location)
             hostname = splits.hostname
+            port = splits.port
+            scheme = splits.scheme
+            if not splits.netloc:  # relative reference so same scheme host port
+                hostname = self.requester.hostname
+                port = self.requester.port
+                scheme = scheme or self.requester.scheme
             if not hostname:
                 raise httping.InvalidURL("Redirect Location without host "
                                          "'{0}'".format(location))
-            port = splits.port
-            scheme = splits.scheme
             scheme = 'https' if scheme.lower() == 'https' else 'http'
             if scheme == 'https':
                 secured = True  # use tls socket connection
